@@ -236,7 +236,7 @@ func ruleCookie(c *Ctx) {
 					_, miss := seen[g.Exit]
 					// a panic (or any other abnormal end) before the status was set
 					// ends the process with a status that is not 1
-					if _, aborts := seen[g.Abort]; aborts && g.Abort != nil {
+					if _, aborts := seen[g.Abort]; aborts && g.Abort != nil && p.FeasibleReach(f, []*Node{e2.To}, isSet1, testMode)[g.Abort] {
 						okFail = false
 					}
 					if miss {
